@@ -1108,3 +1108,340 @@ Section SpectralLemmas.
       + apply Forall_forall. intros r Hr. apply repeat_spec in Hr. subst. apply repeat_length.
   Qed.
 End SpectralLemmas.
+
+(** * unflatten of an arbitrary prefix-consistent entry list *)
+Definition good_entries (sep : Z) (ES : list entry) : Prop :=
+  PF ES /\ all_terminal ES /\ NoDup (map fst ES) /\
+  (forall e, In e ES -> fst e <> [] /\ nosep sep (fst e)).
+
+Lemma entries_good sep d : wf_tree sep (Node d) = true -> good_entries sep (entries d).
+Proof.
+  intro W. destruct (entries_facts _ _ W) as (S & P & AT & NE). repeat split; auto; try apply NE; auto.
+  destruct d as [|x0 l1]; [constructor|]. rewrite <- entries_t_node by easy. now apply (entries_t_nodup sep).
+Qed.
+
+Lemma unflatten_entries sep ES :
+  good_entries sep ES ->
+  exists r, unflatten_dict sep (mk_items sep [] false (leaf_part ES)) (map (mk sep [] false) (empty_part ES)) = Some r /\
+            Spec ES (Node r).
+Proof.
+  intros (P & AT & NDp & NE).
+  destruct (parts_nodup _ NDp) as (P1 & P2 & P3).
+  assert (X : forall p, (In p (map fst (leaf_part ES)) \/ In p (empty_part ES)) -> exists val, In (p, val) ES).
+  { intros p [H|H].
+    - apply in_map_iff in H as ([q v] & <- & H). apply in_leaf_part in H. eauto.
+    - apply in_empty_part in H as [l' H]. eauto. }
+  assert (INJ : forall p1 p2, (In p1 (map fst (leaf_part ES)) \/ In p1 (empty_part ES)) ->
+                (In p2 (map fst (leaf_part ES)) \/ In p2 (empty_part ES)) ->
+                mk sep [] false p1 = mk sep [] false p2 -> p1 = p2).
+  { intros p1 p2 H1 H2. apply X in H1 as [v1 H1]. apply X in H2 as [v2 H2].
+    apply mk_inj; [apply (NE _ H1)|apply (NE _ H2)|apply (NE _ H1)|apply (NE _ H2)]. }
+  assert (E : map fst (mk_items sep [] false (leaf_part ES)) = map (mk sep [] false) (map fst (leaf_part ES))).
+  { unfold mk_items. now rewrite !map_map. }
+  assert (K2 : NoDup (map (mk sep [] false) (empty_part ES))) by (apply nodup_map_inj_in; auto).
+  assert (RB : forall e, In e (rebuild ES) <-> In e ES) by (intro; now apply in_rebuild).
+  destruct (ins_paths_spec (rebuild ES)) as (r & Hr & Sr).
+  { eapply PF_ext; [|exact P]. intro e. symmetry. apply RB. }
+  { intros e He. apply RB in He. now apply NE. }
+  { intros e He. apply RB in He. now apply AT. }
+  exists r. split; [|eapply Spec_ext; [exact RB|exact Sr]].
+  unfold unflatten_dict, empty_entries.
+  set (EE := map (fun k => (k, Node [])) (map (mk sep [] false) (empty_part ES))).
+  assert (FE : map fst EE = map (mk sep [] false) (empty_part ES)).
+  { unfold EE. rewrite map_map. cbn. now rewrite map_id. }
+  rewrite dict_of_nodup by now rewrite FE.
+  rewrite dmerge_fresh.
+  - replace (leaf_entries (mk_items sep [] false (leaf_part ES)) ++ EE)
+      with (map (fun e : entry => (join sep (fst e), snd e)) (rebuild ES)).
+    + rewrite ins_all_join; [exact Hr|]. intros e He. apply RB in He. now apply NE.
+    + unfold rebuild, leaf_entries, mk_items, EE. rewrite map_app, !map_map. reflexivity.
+  - now rewrite FE.
+  - rewrite FE. intros k Hk.
+    replace (map fst (leaf_entries (mk_items sep [] false (leaf_part ES))))
+      with (map (mk sep [] false) (map fst (leaf_part ES))) by (unfold leaf_entries, mk_items; now rewrite !map_map).
+    intro Hk2. apply in_map_iff in Hk as (p1 & <- & H1). apply in_map_iff in Hk2 as (p2 & Eq & H2).
+    apply INJ in Eq; auto. subst p2. exact (P3 _ H1 H2).
+Qed.
+
+(** converse reading of [Spec]: the entries determine what is found at a path *)
+Lemma Spec_conv ES t :
+  PF ES -> paths_nonempty ES -> Spec ES t ->
+  (forall q w, In (q, Leaf w) ES -> view q t = Some (Some w)) /\
+  (forall q e, In e ES -> (pcmp q (fst e) = PQ \/ (fst e = q /\ snd e = Node [])) -> view q t = Some None) /\
+  (forall q, q <> [] -> (forall e, In e ES -> pcmp q (fst e) = PInc \/ pcmp q (fst e) = PP) -> view q t = None).
+Proof.
+  intros P NE S.
+  assert (Q0 : view [] t <> None) by (rewrite view_nil; now destruct t).
+  split; [|split].
+  - intros q w Hi. specialize (S q). destruct (view q t) as [[v|]|].
+    + destruct (P _ _ S Hi) as [A|A]; [now injection A as ->|cbn in A; now rewrite pcmp_refl in A].
+    + exfalso. destruct S as [->|(e & He & S)]; [now apply (NE _ Hi)|].
+      destruct (P _ _ Hi He) as [<-|A]; cbn in *.
+      * destruct S as [S|[_ S]]; [now rewrite pcmp_refl in S|easy].
+      * destruct S as [S|[S _]]; [congruence|]. rewrite S, pcmp_refl in A. easy.
+    + exfalso. specialize (S _ Hi). cbn in S. rewrite pcmp_refl in S. now destruct S.
+  - intros q e He Hc. specialize (S q). destruct (view q t) as [[v|]|]; [exfalso| reflexivity |exfalso].
+    + destruct (P _ _ S He) as [<-|A]; cbn in *.
+      * destruct Hc as [Hc|[_ Hc]]; [now rewrite pcmp_refl in Hc|easy].
+      * destruct Hc as [Hc|[Hc _]]; [congruence|]. rewrite Hc, pcmp_refl in A. easy.
+    + specialize (S _ He). destruct Hc as [Hc|[Hc _]].
+      * rewrite Hc in S. now destruct S.
+      * rewrite Hc, pcmp_refl in S. now destruct S.
+  - intros q NN H. specialize (S q). destruct (view q t) as [[v|]|]; [exfalso|exfalso|reflexivity].
+    + specialize (H _ S). cbn in H. rewrite pcmp_refl in H. now destruct H.
+    + destruct S as [->|(e & He & S)]; [easy|]. specialize (H _ He). destruct S as [S|[S _]].
+      * rewrite S in H. now destruct H.
+      * rewrite S, pcmp_refl in H. now destruct H.
+Qed.
+
+(** * replace_with_matching_or_default keeps the structure of [x] *)
+Definition relabel (g : list str -> Z) (e : entry) : entry :=
+  (fst e, match snd e with Leaf _ => Leaf (g (fst e)) | Node l => Node l end).
+
+Lemma relabel_good sep g ES : good_entries sep ES -> good_entries sep (map (relabel g) ES).
+Proof.
+  intros (P & AT & ND & NE).
+  assert (F : map fst (map (relabel g) ES) = map fst ES) by (rewrite map_map; reflexivity).
+  repeat split.
+  - intros e1 e2 H1 H2. apply in_map_iff in H1 as (a1 & <- & H1), H2 as (a2 & <- & H2).
+    destruct (P _ _ H1 H2) as [->|A]; [now left|now right].
+  - intros e He. apply in_map_iff in He as (a & <- & Ha). specialize (AT _ Ha).
+    destruct a as [p [v|l]]; cbn in *; auto.
+  - now rewrite F.
+  - apply in_map_iff in H as (a & <- & Ha). apply (NE _ Ha).
+  - apply in_map_iff in H as (a & <- & Ha). apply (NE _ Ha).
+Qed.
+Lemma relabel_parts g ES :
+  leaf_part (map (relabel g) ES) = map (fun pv => (fst pv, g (fst pv))) (leaf_part ES) /\
+  empty_part (map (relabel g) ES) = empty_part ES.
+Proof.
+  unfold leaf_part, empty_part.
+  induction ES as [|[p [v|l]] ES [IH1 IH2]]; cbn; [split; reflexivity| |]; rewrite IH1, IH2; split; reflexivity.
+Qed.
+
+Theorem replace_structure x repl default chk r :
+  wf_dict amp x = true ->
+  replace_with_matching_or_default x repl default chk = Some r ->
+  forall q, match view q (Node x) with
+            | Some (Some _) => exists v, view q (Node r) = Some (Some v)
+            | o => view q (Node r) = o
+            end.
+Proof.
+  unfold wf_dict, replace_with_matching_or_default. intros W.
+  unfold flatten_dict at 1.
+  rewrite (flatten_spec amp (Node x) W x eq_refl [] false).
+  destruct (flatten_dict amp [] repl) as [[flat_r er]|]; [|discriminate].
+  destruct (chk && _); [discriminate|].
+  set (g := fun p => match dget (join amp p) flat_r with Some v => v | None => default end).
+  pose proof (entries_good _ _ W) as G.
+  pose proof (relabel_good amp g _ G) as G'.
+  destruct (relabel_parts g (entries x)) as [L1 L2].
+  destruct (unflatten_entries amp _ G') as (r' & Hr' & S').
+  rewrite L1, L2 in Hr'.
+  assert (Eq : dict_of (map (fun kv : str * Z => (fst kv, match dget (fst kv) flat_r with Some v => v | None => default end))
+                            (mk_items amp [] false (leaf_part (entries x))))
+               = mk_items amp [] false (map (fun pv => (fst pv, g (fst pv))) (leaf_part (entries x)))).
+  { rewrite dict_of_nodup.
+    - unfold mk_items. rewrite !map_map. reflexivity.
+    - destruct (mk_keys_nodup amp x [] false W) as (K1 & _). unfold mk_items in *. rewrite !map_map in *. exact K1. }
+  rewrite Eq, Hr'. intros [= <-] q.
+  destruct (entries_facts _ _ W) as (S & P & AT & NE).
+  destruct G' as (P' & AT' & ND' & NE').
+  destruct (Spec_conv _ _ P' (fun e He => proj1 (NE' e He)) S') as (C1 & C2 & C3).
+  assert (IN : forall e, In e (entries x) -> In (relabel g e) (map (relabel g) (entries x))) by (intros; now apply in_map).
+  specialize (S q). destruct (view q (Node x)) as [[v|]|] eqn:Ev.
+  - eexists. apply C1. apply (IN _ S).
+  - destruct S as [->|(e & He & S)]; [reflexivity|].
+    apply (C2 q (relabel g e) (IN _ He)). cbn. destruct S as [S|[S1 S2]]; [now left|right]. now rewrite S2.
+  - apply C3.
+    + intros ->. now rewrite view_nil in Ev.
+    + intros e' He'. apply in_map_iff in He' as (e & <- & He). cbn. now apply S.
+Qed.
+
+(** * flatten after unflatten, for prefix-consistent flat dictionaries *)
+Lemma pcmp_pq_trans q p a : pcmp q p = PQ -> pcmp p a = PQ -> pcmp q a = PQ.
+Proof.
+  revert p a; induction q as [|x q IH]; intros [|y p] [|z a]; cbn; try easy.
+  destruct (str_eqb x y) eqn:E1; [|easy]. apply str_eqb_eq in E1; subst y.
+  destruct (str_eqb x z); [apply IH|easy].
+Qed.
+
+Lemma Spec_same_entries ES1 ES2 t :
+  PF ES1 -> paths_nonempty ES1 -> all_terminal ES1 -> Spec ES1 t ->
+  PF ES2 -> paths_nonempty ES2 -> all_terminal ES2 -> Spec ES2 t ->
+  forall e, In e ES1 -> In e ES2.
+Proof.
+  intros P1 N1 T1 S1 P2 N2 T2 S2 [q val] He.
+  destruct (Spec_conv _ _ P1 N1 S1) as (C1 & C2 & C3).
+  destruct (Spec_conv _ _ P2 N2 S2) as (D1 & D2 & D3).
+  destruct val as [v|l].
+  - pose proof (C1 _ _ He) as V. specialize (S2 q). now rewrite V in S2.
+  - pose proof (T1 _ He) as T. cbn in T. subst l.
+    assert (V : view q t = Some None) by (apply (C2 q _ He); right; auto).
+    pose proof (S2 q) as S2q. rewrite V in S2q.
+    destruct S2q as [->|(e' & He' & [Hc|[Hc1 Hc2]])]; [now apply N1 in He| |].
+    + exfalso. (* q is a strict prefix of an entry of ES2: something would lie below an empty dictionary *)
+      assert (NV : view (fst e') t <> None).
+      { pose proof (T2 _ He') as T. destruct e' as [p [w|l']]; cbn in *.
+        - now rewrite (D1 _ _ He').
+        - subst l'. rewrite (D2 p _ He'); [easy|]. right. auto. }
+      assert (X : forall e'', In e'' ES1 -> pcmp q (fst e'') = PQ -> False).
+      { intros e'' H'' Hq. destruct (P1 _ _ He H'') as [<-|A]; cbn in *; [now rewrite pcmp_refl in Hq|congruence]. }
+      pose proof (S1 (fst e')) as S1p. destruct (view (fst e') t) as [[w|]|]; [| |easy].
+      * apply (X _ S1p). exact Hc.
+      * destruct S1p as [E|(e'' & H'' & [Hd|[Hd1 Hd2]])].
+        -- rewrite E in Hc. now destruct q.
+        -- apply (X _ H''). eapply pcmp_pq_trans; eauto.
+        -- apply (X _ H''). now rewrite Hd1.
+    + destruct e' as [p l']; cbn in *. now subst.
+Qed.
+
+(** keys of an unflattened dictionary never contain the separator *)
+Inductive ksf (sep : Z) : tree -> Prop :=
+| ksf_leaf v : ksf sep (Leaf v)
+| ksf_node l : Forall (fun kc => contains sep (fst kc) = false /\ ksf sep (snd kc)) l -> ksf sep (Node l).
+
+Lemma in_dset_key {V} k (v : V) d a b : In (a, b) (dset k v d) -> In (a, b) d \/ (a = k /\ b = v).
+Proof.
+  induction d as [|[k' v'] d IH]; cbn.
+  - intros [[= <- <-]|[]]. now right.
+  - destruct (str_eqb k k') eqn:E; cbn.
+    + apply str_eqb_eq in E. subst k'. intros [[= <- <-]|H]; [now right|left; now right].
+    + intros [H|H]; [left; now left|]. destruct (IH H); auto.
+Qed.
+Lemma dset_ksf sep k v d :
+  contains sep k = false -> ksf sep (Node d) -> ksf sep v -> ksf sep (Node (dset k v d)).
+Proof.
+  intros Hk N Nv. inversion N as [|? F]; subst. constructor.
+  rewrite Forall_forall in *. intros [a b] H. apply in_dset_key in H. destruct H as [H|[-> ->]]; [exact (F _ H)|].
+  cbn. auto.
+Qed.
+Lemma ins_ksf sep p : forall val d d',
+  nosep sep p -> ksf sep (Node d) -> ksf sep val -> ins p val d = Some d' -> ksf sep (Node d').
+Proof.
+  induction p as [|k rest IH]; intros val d d' NS N Nv H; [discriminate|].
+  inversion NS as [|? ? Hk Hr]; subst.
+  destruct rest as [|k2 rest].
+  - cbn in H. injection H as <-. now apply dset_ksf.
+  - rewrite ins_unfold in H. destruct (dget k d) as [[v|sub]|] eqn:G; [discriminate| |].
+    + destruct (ins (k2 :: rest) val sub) as [sub'|] eqn:Es; [|discriminate]. injection H as <-.
+      apply dset_ksf; auto. apply (IH val sub); auto.
+      inversion N as [|? F]; subst. rewrite Forall_forall in F. exact (proj2 (F _ (dget_In _ _ _ G))).
+    + destruct (ins (k2 :: rest) val []) as [sub'|] eqn:Es; [|discriminate]. injection H as <-.
+      apply dset_ksf; auto. apply (IH val []); auto. constructor. constructor.
+Qed.
+Lemma ins_all_ksf sep (ES : dict) : forall acc r,
+  (forall e, In e ES -> ksf sep (snd e)) -> ksf sep (Node acc) ->
+  ins_all sep ES (Some acc) = Some r -> ksf sep (Node r).
+Proof.
+  unfold ins_all. induction ES as [|e ES IH]; intros acc r HE N H.
+  - cbn in H. now injection H as <-.
+  - cbn [fold_left] in H. destruct (ins (split sep (fst e)) (snd e) acc) as [acc'|] eqn:Ei.
+    + apply (IH acc' r); auto.
+      * intros e' He'. apply HE. now right.
+      * exact (ins_ksf _ _ _ _ _ (split_parts_nosep sep (fst e)) N (HE e (or_introl eq_refl)) Ei).
+    + exfalso. clear -H. induction ES as [|e' ES IH']; [discriminate|]. cbn in H. auto.
+Qed.
+Lemma unflatten_ksf sep flat empties r : unflatten_dict sep flat empties = Some r -> ksf sep (Node r).
+Proof.
+  unfold unflatten_dict. intro H.
+  assert (N0 : ksf sep (Node [])) by (constructor; constructor).
+  eapply ins_all_ksf; [|exact N0|exact H].
+  intros [k v] He. cbn.
+  assert (G : forall (b a : dict), (forall e, In e a -> ksf sep (snd e)) -> (forall e, In e b -> ksf sep (snd e)) ->
+              forall e, In e (dmerge a b) -> ksf sep (snd e)).
+  { unfold dmerge. induction b as [|[k' v'] b IHb]; intros a Ha Hb e; cbn; [apply Ha|].
+    apply IHb.
+    - intros [a1 b1] H1. apply in_dset in H1. destruct H1 as [H1|E]; [exact (Ha _ H1)|]. cbn in *. subst b1. apply (Hb (k', v')). now left.
+    - intros e' He'. apply Hb. now right. }
+  apply (G _ _) in He; [exact He| |].
+  - intros e' He'. unfold leaf_entries in He'. apply in_map_iff in He' as (x & <- & _). constructor.
+  - intros e' He'. unfold empty_entries, dict_of in He'.
+    apply (G _ []) in He'; [exact He'|easy|].
+    intros e'' H''. apply in_map_iff in H'' as (x & <- & _). constructor; constructor.
+Qed.
+Lemma ndt_ksf_wf sep t : ndt t -> ksf sep t -> wf_tree sep t = true.
+Proof.
+  induction t as [v|l IH] using tree_ind2; intros N K; [reflexivity|].
+  inversion N as [|? ND F]; subst. inversion K as [|? FK]; subst.
+  cbn [wf_tree]. apply andb_true_iff. split.
+  - apply negb_true_iff. now apply has_dup_false.
+  - apply forallb_forall. intros [k c] H. rewrite Forall_forall in *.
+    destruct (FK _ H) as [A B]. cbn [fst snd] in A, B. rewrite A. cbn [negb andb]. exact (IH _ H (F _ H) B).
+Qed.
+
+Definition flat_entries (sep : Z) (flat : list (str * Z)) (empties : list str) : list entry :=
+  map (fun kv => (split sep (fst kv), Leaf (snd kv))) flat ++ map (fun k => (split sep k, Node [])) empties.
+
+Lemma flat_entries_parts sep flat empties :
+  leaf_part (flat_entries sep flat empties) = map (fun kv => (split sep (fst kv), snd kv)) flat /\
+  empty_part (flat_entries sep flat empties) = map (split sep) empties.
+Proof.
+  unfold flat_entries. rewrite leaf_part_app, empty_part_app. 
+  assert (A : forall fl : list (str * Z), leaf_part (map (fun kv => (split sep (fst kv), Leaf (snd kv))) fl)
+                       = map (fun kv => (split sep (fst kv), snd kv)) fl /\
+                     empty_part (map (fun kv => (split sep (fst kv), Leaf (snd kv))) fl) = []).
+  { induction fl as [|kv fl [I1 I2]]; [split; reflexivity|]. unfold leaf_part, empty_part in *. cbn. rewrite I1, I2. now split. }
+  assert (B : forall em : list str, leaf_part (map (fun k => (split sep k, Node [])) em) = [] /\
+                     empty_part (map (fun k => (split sep k, Node [])) em) = map (split sep) em).
+  { induction em as [|k em [I1 I2]]; [split; reflexivity|]. unfold leaf_part, empty_part in *. cbn. rewrite I1, I2. now split. }
+  destruct (A flat) as [A1 A2], (B empties) as [B1 B2]. rewrite A1, A2, B1, B2. now rewrite app_nil_r.
+Qed.
+
+(** keys pairwise distinct (a dict and a duplicate-free tuple, disjoint) and
+    prefix-consistent (no key path is a prefix of another): unflatten then
+    flatten gives the same flat dictionary and empty keys, up to order *)
+Theorem flatten_unflatten sep flat empties :
+  NoDup (map fst flat ++ empties) ->
+  PF (flat_entries sep flat empties) ->
+  exists r flat' empties',
+    unflatten_dict sep flat empties = Some r /\
+    flatten_dict sep [] r = Some (flat', empties') /\
+    Permutation flat' flat /\ Permutation empties' empties.
+Proof.
+  intros ND P. set (ES := flat_entries sep flat empties) in *.
+  destruct (flat_entries_parts sep flat empties) as [L1 L2]. fold ES in L1, L2.
+  assert (NEs : forall e, In e ES -> fst e <> [] /\ nosep sep (fst e)).
+  { intros e He. unfold ES, flat_entries in He. apply in_app_iff in He.
+    destruct He as [He|He]; apply in_map_iff in He as (x & <- & _); cbn; split;
+      try apply split_nonnil; apply split_parts_nosep. }
+  assert (ATs : all_terminal ES).
+  { intros e He. unfold ES, flat_entries in He. apply in_app_iff in He.
+    destruct He as [He|He]; apply in_map_iff in He as (x & <- & _); cbn; auto. }
+  assert (NDs : NoDup (map fst ES)).
+  { unfold ES, flat_entries. rewrite map_app, !map_map. cbn.
+    replace (map (fun x : str * Z => split sep (fst x)) flat) with (map (split sep) (map fst flat)) by now rewrite map_map.
+    rewrite <- map_app. apply nodup_map_inj_in; auto.
+    intros a b _ _ E. rewrite <- (join_split sep a), <- (join_split sep b). now rewrite E. }
+  assert (G : good_entries sep ES) by (repeat split; auto; apply NEs; auto).
+  destruct (unflatten_entries sep ES G) as (r & Hr & Sr).
+  rewrite L1, L2 in Hr.
+  assert (F1 : mk_items sep [] false (map (fun kv : str * Z => (split sep (fst kv), snd kv)) flat) = flat).
+  { unfold mk_items. rewrite map_map. cbn. etransitivity; [|apply map_id]. apply map_ext.
+    intros [k v]. cbn. unfold mk, new_key_of. cbn. now rewrite join_split. }
+  assert (F2 : map (mk sep [] false) (map (split sep) empties) = empties).
+  { rewrite map_map. etransitivity; [|apply map_id]. apply map_ext. intro k. unfold mk, new_key_of. cbn. apply join_split. }
+  rewrite F1, F2 in Hr.
+  (* the result is a well-formed dictionary *)
+  assert (Wr : wf_tree sep (Node r) = true).
+  { apply ndt_ksf_wf; [eapply unflatten_ndt; eauto|eapply unflatten_ksf; eauto]. }
+  exists r, (mk_items sep [] false (leaf_part (entries r))), (map (mk sep [] false) (empty_part (entries r))).
+  split; [exact Hr|]. split; [exact (flatten_spec sep (Node r) Wr r eq_refl [] false)|].
+  (* same entries, hence permutations *)
+  destruct (entries_facts _ _ Wr) as (S & Pr & ATr & NEr).
+  destruct (entries_good _ _ Wr) as (_ & _ & NDr & _).
+  assert (PE : Permutation (entries r) ES).
+  { apply NoDup_Permutation.
+    - eapply NoDup_map_inv; exact NDr.
+    - eapply NoDup_map_inv; exact NDs.
+    - intro e. split.
+      + apply (Spec_same_entries (entries r) ES (Node r)); auto; intros e' He'; [apply NEr|apply NEs]; auto.
+      + apply (Spec_same_entries ES (entries r) (Node r)); auto; intros e' He'; [apply NEs|apply NEr]; auto. }
+  split.
+  - assert (X : Permutation (mk_items sep [] false (leaf_part (entries r))) (mk_items sep [] false (leaf_part ES))).
+    { unfold mk_items. apply Permutation_map. unfold leaf_part. now apply Permutation_flat_map. }
+    now rewrite L1, F1 in X.
+  - assert (X : Permutation (map (mk sep [] false) (empty_part (entries r))) (map (mk sep [] false) (empty_part ES))).
+    { apply Permutation_map. unfold empty_part. now apply Permutation_flat_map. }
+    now rewrite L2, F2 in X.
+Qed.
